@@ -81,6 +81,11 @@ def stepC08 : List String → String
     | some n, some root, some flags, some hs =>
       fmtCheck (machine (goOps n) hashPair08 maxTx n root (unpackFlags flags) hs (fuelFor n hs.length))
     | _, _, _, _ => "bad-op"
+  | "padded" :: n :: root :: flags :: hashes :: _ =>
+    match nat? n, hexBytes? root, hexBytes? flags, parseHashes08 hashes with
+    | some n, some root, some flags, some hs =>
+      fmtCheck (machine (goOps n) hashPair08 maxTx n root (unpackFlags flags) hs (fuelFor n hs.length))
+    | _, _, _, _ => "bad-op"
   | "spec" :: n :: root :: flags :: hashes :: _ =>   -- the recursive specification, same output format
     match nat? n, hexBytes? root, hexBytes? flags, parseHashes08 hashes with
     | some n, some root, some flags, some hs =>
